@@ -42,7 +42,8 @@ MANIFEST = {
             'node map restored.  Bystanders: same final outcome as in the run '
             'without the request, nothing dropped from queues or pools.'
             '  Second session: a CancelWatch observer requires that once the scheduling loop has consumed the request no named task sits in the wait pool at a step boundary or is started.'
-            '  Third session: intake race on the real BaseComponent - the main thread passes things through is_canceled while the control thread registers further requests through _control_cb (yield before the cancel lock, LINE perturbation): a request registered before a thing reaches the intake is honoured there, no request is forgotten, no bystander dropped.',
+            '  Third session: intake race on the real BaseComponent - the main thread passes things through is_canceled while the control thread registers further requests through _control_cb (yield before the cancel lock, LINE perturbation): a request registered before a thing reaches the intake is honoured there, no request is forgotten, no bystander dropped.'
+            '  A third of the executor histories name - first - a task the executor does not hold in their cancel requests (it runs elsewhere or is collected already): the named tasks it does hold are canceled all the same.',
     'note': 'scheduler stage and executor stage are exercised separately; the '
             'client side of cancel_tasks (control message with forward flag) '
             'is covered by C16; executor histories use real threads/processes '
